@@ -61,7 +61,7 @@ ASSUMPTIONS = [
     'is a re-run of that task: its capture files must hold the output of the latest run only',
     'surrogate code points are not generated (names and texts are valid unicode)',
 ]
-BUDGET = {'quick': {'cases': 3200, 'shards': 16, 'seconds': 150, 'shrink_s': 45},
+BUDGET = {'quick': {'cases': 3200, 'shards': 16, 'seconds': 150, 'shrink_s': 20},
           'thorough': {'cases': 160000, 'shards': 16, 'seconds': 840, 'shrink_s': 90}}
 FLOORS = {'direct': 0.3, 'sched': 0.3, 'sched-2w': 0.1, 'fail-nonlast': 0.25,
           'unstartable': 0.12, 'unstartable-nonlast': 0.05, 'invalid-name': 0.12,
@@ -313,6 +313,8 @@ class Exec:
             cmd = spec['cmds'][self.first_bad]
             what = ('unstartable' if cmd['kind'] == 'missing' else 'signal' if cmd['sig'] else 'exit')
             self.cause = what + ('-last' if self.first_bad == ncmd - 1 else '-nonlast')
+        self.kind = self.cause.rsplit('-', 1)[0] if self.first_bad is not None else 'all-zero'
+        self.sig_name = 'valid' if self.valid else self.cls
 
     def _sh(self, cmd, idx, tmp, tag):
         script = _script(cmd, idx, self.marker)
@@ -574,14 +576,20 @@ def _judge_round(execs, mode, root, tmp, state, out):
         state['tainted'] = True
         real_root = os.path.realpath(root)
         where = {os.path.dirname(path) for path in stray}
-        blamed = {exe.cls for exe in execs if '\0' not in exe.name
+        blamed = {exe.sig_name for exe in execs if '\0' not in exe.name
                   and os.path.normpath(os.path.join(real_root, exe.name)) in where}
-        blamed = blamed or {exe.cls for exe in execs if exe.cls != 'ordinary'} or {'ordinary'}
+        blamed = blamed or {exe.sig_name for exe in execs}
         kind = ('not-below-root' if any(not _inside(d, real_root) for d in where) else 'stray')
         fails.append((None, Failure(
             'own_dir', f'C19/own_dir/{kind}/name=' + '+'.join(sorted(blamed)),
             f'file(s) outside every task directory: {sorted(stray)[:4]} (root {root})')))
+    consequences = ('stdout_content', 'stderr_content', 'capture_read', 'foreign_write')
     for exe, fail in fails:
+        if state['tainted'] and fail.clause in consequences:
+            # two tasks were found sharing a directory (reported as own_dir): what the files
+            # hold is a consequence of that
+            out.labels.append('content-clauses-skipped-after-shared-directory')
+            continue
         if (state['root_is_task_dir'] and exe is not None and exe.name in CAPTURE_NAMES
                 and fail.clause != 'own_dir'):
             out.excluded += 1      # consequence of another task having used the root itself
@@ -602,7 +610,7 @@ def _judge_exec(exe, mode, root, tmp, state, fails):
     # ---- construction
     if exe.task is None:
         if exe.valid:
-            fails.append((exe, exc_failure('ctor_raises', exe.ctor_exc, 'name=' + exe.cls)))
+            fails.append((exe, exc_failure('ctor_raises', exe.ctor_exc, 'name=' + exe.sig_name)))
         else:
             exe.features.add('invalid-name-rejected-at-construction')
         return
@@ -620,7 +628,7 @@ def _judge_exec(exe, mode, root, tmp, state, fails):
     else:
         entry = exe.result[1]
         if not isinstance(entry, dict) or 'status' not in entry:
-            fail('no_status', f'no_status/{exe.cause}/name={exe.cls}',
+            fail('no_status', f'no_status/{exe.kind}/name={exe.sig_name}',
                  f'no status in the scheduled environment: {entry!r:.200}')
             return
         status = entry['status']
@@ -637,28 +645,8 @@ def _judge_exec(exe, mode, root, tmp, state, fails):
              f'status {status} without any environment update')
         return
 
-    # ---- status
-    if exe.start_fail is not None:
-        if mode == 'direct' and raised is not None:
-            exe.features.add('unstartable-raises-in-do')
-        elif status != TaskStatus.FAILED:
-            fail('start_failure', f'start_failure/got={_status_name(status)}/how={exe.start_fail}',
-                 f'command {exe.first_bad} cannot be started but the task is {status}')
-    else:
-        if raised is not None:
-            fails.append((exe, exc_failure('do_raises', raised, f'{exe.cause}/name={exe.cls}')))
-            if guess_dir and os.path.isdir(guess_dir):
-                state['owners'].setdefault(os.path.realpath(guess_dir), exe.name)
-            return
-        expected = TaskStatus.DONE if exe.cause == 'all-zero' else TaskStatus.FAILED
-        if status != expected:
-            fail('status', f'status/exp={expected.name}/got={_status_name(status)}/{exe.cause}',
-                 f'codes per model {exe.codes}, status {status}')
-        if update is None:
-            fail('update_missing', f'update_missing/{exe.cause}',
-                 'the task ran but proposed no environment update')
-
-    # ---- which commands ran (written by the commands themselves)
+    # ---- which commands ran (written by the commands themselves); everything else the task
+    # reports is a function of that, so a wrong set of commands is reported alone
     try:
         marks = _read(exe.marker).decode().split()
     except FileNotFoundError:
@@ -668,8 +656,35 @@ def _judge_exec(exe, mode, root, tmp, state, fails):
         extra = 'later-commands-ran' if len(marks) > len(exe.ran) else 'commands-missing'
         if any('survived' in m for m in marks):
             extra = 'signal-survived'      # would be a defect of the harness script, not of valjean
-        fail('commands_run', f'commands_run/{extra}/{exe.cause}',
-             f'commands that ran: {marks}, expected {exe.ran}')
+        fail('commands_run', f'commands_run/{extra}/{exe.kind}',
+             f'commands that ran: {marks}, expected {exe.ran} (first failing command: '
+             f'{exe.first_bad}, {exe.cause})')
+
+    # ---- status
+    if not ran_ok:
+        pass
+    elif exe.start_fail is not None:
+        if mode == 'direct' and raised is not None:
+            exe.features.add('unstartable-raises-in-do')
+        elif status != TaskStatus.FAILED:
+            fail('start_failure', f'start_failure/got={_status_name(status)}/how={exe.start_fail}',
+                 f'command {exe.first_bad} cannot be started but the task is {status}')
+    else:
+        if raised is not None:
+            fails.append((exe, exc_failure('do_raises', raised, f'{exe.kind}/name={exe.sig_name}')))
+        else:
+            expected = TaskStatus.DONE if exe.cause == 'all-zero' else TaskStatus.FAILED
+            if status != expected:
+                fail('status', f'status/exp={expected.name}/got={_status_name(status)}/{exe.cause}',
+                     f'codes per model {exe.codes}, status {status}')
+            elif update is None:
+                fail('update_missing', f'update_missing/{exe.kind}',
+                     'the task ran but proposed no environment update')
+    if raised is not None and exe.start_fail is None or not ran_ok and update is None:
+        if guess_dir and os.path.isdir(guess_dir):
+            state['owners'].setdefault(os.path.realpath(guess_dir), exe.name)
+        if raised is not None and exe.start_fail is None:
+            return
 
     # ---- return codes
     if update is not None and ran_ok:
@@ -719,7 +734,7 @@ def _judge_exec(exe, mode, root, tmp, state, fails):
         if why:
             state['tainted'] = True
             others = {d: n for d, n in state['owners'].items() if n != exe.name}
-            fail('own_dir', f'own_dir/{why}/name={exe.cls}',
+            fail('own_dir', f'own_dir/{why}/name={exe.sig_name}',
                  f'capture directory {dname} (root {real_root}); directories of other tasks: '
                  f'{others}'[:400])
         if why == 'not-below-root':
@@ -727,7 +742,7 @@ def _judge_exec(exe, mode, root, tmp, state, fails):
         else:
             state['owners'].setdefault(dname, exe.name)
 
-    if ran_ok:
+    if ran_ok and not (len(paths) == 2 and paths['stdout'] == paths['stderr']):
         rec = {}
         for stream, exp in (('stdout', exe.exp_out), ('stderr', exe.exp_err)):
             if stream not in paths:
@@ -742,7 +757,7 @@ def _judge_exec(exe, mode, root, tmp, state, fails):
             if got != exp:
                 fail(f'{stream}_content', f'capture_content/{rerun}',
                      f'{paths[stream]} holds {_short(got)}, the commands wrote {_short(exp)}')
-            rec[stream] = (paths[stream], exp)
+            rec[stream] = (paths[stream], got)    # as seen now: must stay so while not re-run
         if len(rec) == 2:
             state['last'][exe.name] = rec
     del prev
